@@ -273,7 +273,7 @@ def _refs_method(trees, path, owner, node, static, classm=False):
     if classm:
         # `cls.helper(...)` written inside a classmethod of the same class:
         # the helper's cls is the caller's cls
-        recv = ('cls',)
+        recv = ('cls', 'self')
         cls_scopes = set()
         for s in owner.body:
             if isinstance(s, ast.FunctionDef) and any(
@@ -285,7 +285,20 @@ def _refs_method(trees, path, owner, node, static, classm=False):
                         for x in ast.walk(s)) and sum(
                         1 for x in ast.walk(s) if isinstance(x, ast.arg)
                         and x.arg == 'cls') == 1:
-                cls_scopes |= {id(x) for x in ast.walk(s)}
+                cls_scopes |= {id(x) for x in ast.walk(s)
+                               if not (isinstance(x, ast.Attribute) and
+                                       isinstance(x.value, ast.Name) and
+                                       x.value.id == 'self')}
+            elif isinstance(s, ast.FunctionDef) and not s.decorator_list \
+                    and s.args.args and s.args.args[0].arg == 'self' and \
+                    not any(isinstance(x, ast.Name) and x.id == 'self' and
+                            isinstance(x.ctx, (ast.Store, ast.Del))
+                            for x in ast.walk(s)):
+                # through an instance: `self.helper(...)` in a plain method
+                cls_scopes |= {id(x) for x in ast.walk(s)
+                               if not (isinstance(x, ast.Attribute) and
+                                       isinstance(x.value, ast.Name) and
+                                       x.value.id == 'cls')}
         inside = inside & cls_scopes
     for p, tree in trees.items():
         for n in ast.walk(tree):
@@ -395,6 +408,22 @@ class _Subst(ast.NodeTransformer):
         if node.name in self.renames:
             node.name = self.renames[node.name]
         return self.generic_visit(node)
+
+
+class _TypeSelfAttr(ast.NodeTransformer):
+    """type(self).name read through the instance: self.name (class
+    attributes and classmethods are reachable either way)."""
+    def visit_Attribute(self, node):
+        self.generic_visit(node)
+        v = node.value
+        if isinstance(node.ctx, ast.Load) and isinstance(v, ast.Call) and \
+                isinstance(v.func, ast.Name) and v.func.id == 'type' and \
+                len(v.args) == 1 and isinstance(v.args[0], ast.Name) and \
+                v.args[0].id == 'self' and not node.attr.startswith('__'):
+            return ast.copy_location(ast.Attribute(
+                value=ast.Name(id='self', ctx=ast.Load()), attr=node.attr,
+                ctx=ast.Load()), node)
+        return node
 
 
 class _FoldGetattr(ast.NodeTransformer):
@@ -846,8 +875,19 @@ def _instantiate(helper, kind, call, caller_idents, tag, target=None,
             renames.pop(p, None)
         else:
             assigns.append((renames.get(p, p), v))
+    if any(isinstance(d, ast.Name) and d.id == 'classmethod'
+           for d in helper.decorator_list) and \
+            isinstance(call.func, ast.Attribute) and \
+            isinstance(call.func.value, ast.Name) and \
+            call.func.value.id == 'self' and helper.args.args and \
+            helper.args.args[0].arg not in stored:
+        # a classmethod reached through an instance: cls is type(self)
+        exprs[helper.args.args[0].arg] = ast.Call(
+            func=ast.Name(id='type', ctx=ast.Load()),
+            args=[ast.Name(id='self', ctx=ast.Load())], keywords=[])
     sub = _Subst(exprs, renames)
     body = [_FoldGetattr().visit(sub.visit(st)) for st in body]
+    body = [_TypeSelfAttr().visit(st) for st in body]
     pre = [ast.copy_location(
         ast.Assign(targets=[ast.Name(id=n, ctx=ast.Store())],
                    value=copy.deepcopy(v), lineno=call.lineno), call)
@@ -2602,6 +2642,12 @@ def class_constants(tree):
         if isinstance(e, ast.BinOp) and isinstance(e.op, (ast.Add, ast.Mod)):
             return literal(e.left) and literal(e.right)
         return False
+    def container(e):
+        return (isinstance(e, (ast.List, ast.Set)) and
+                all(literal(x) for x in e.elts)) or \
+            (isinstance(e, ast.Dict) and all(
+                k_ is not None and literal(k_) and literal(v_)
+                for k_, v_ in zip(e.keys, e.values)))
     out = {}
     for k in ast.walk(tree):
         if not isinstance(k, ast.ClassDef):
@@ -2617,9 +2663,60 @@ def class_constants(tree):
         for st in k.body:
             if isinstance(st, ast.Assign) and len(st.targets) == 1 and \
                     isinstance(st.targets[0], ast.Name) and \
-                    seen.get(st.targets[0].id) == 1 and literal(st.value):
+                    seen.get(st.targets[0].id) == 1 and (
+                        literal(st.value) or (
+                            container(st.value) and
+                            _attr_only_read(tree, st.targets[0].id))):
                 out[(k.name, st.targets[0].id)] = st.value
     return out
+
+
+def _attr_only_read(tree, attr):
+    """Every `<obj>.attr` of the module reads the container (subscript,
+    membership, iteration, read-only methods), directly or through a local
+    that is bound to it once and only read the same way."""
+    pm, _ = _tree_index(tree)
+
+    def reading(x):
+        p = pm.get(x)
+        if isinstance(p, ast.Subscript) and p.value is x and \
+                isinstance(p.ctx, ast.Load):
+            return True
+        if isinstance(p, ast.Compare) and x in p.comparators and all(
+                isinstance(o, (ast.In, ast.NotIn)) for o in p.ops):
+            return True
+        if isinstance(p, ast.Attribute) and p.attr in _READ_METHODS and \
+                isinstance(pm.get(p), ast.Call) and pm[p].func is p:
+            return True
+        if isinstance(p, (ast.For, ast.comprehension)) and p.iter is x:
+            return True
+        if isinstance(p, ast.Call) and isinstance(p.func, ast.Name) and \
+                p.func.id in _READ_FUNCS and x in p.args:
+            return True
+        return False
+    for x in ast.walk(tree):
+        if not (isinstance(x, ast.Attribute) and x.attr == attr):
+            continue
+        if not isinstance(x.ctx, ast.Load):
+            return False
+        if reading(x):
+            continue
+        p = pm.get(x)
+        if isinstance(p, ast.Assign) and p.value is x and \
+                len(p.targets) == 1 and isinstance(p.targets[0], ast.Name):
+            fn = p
+            while fn in pm and not isinstance(fn, (ast.FunctionDef,
+                                                   ast.AsyncFunctionDef)):
+                fn = pm[fn]
+            name = p.targets[0].id
+            uses = [n for n in ast.walk(fn) if isinstance(n, ast.Name) and
+                    n.id == name]
+            if sum(isinstance(n.ctx, ast.Store) for n in uses) == 1 and \
+                    all(reading(n) for n in uses
+                        if isinstance(n.ctx, ast.Load)):
+                continue
+        return False
+    return True
 
 
 def inline_new_class_constants(trees, known):
